@@ -391,7 +391,8 @@ def check(case):
         out.status = "rejected"
         msg = str(e)
         cls = "other"
-        for key in ("written in multiple contexts", "assignment to port", "no definition provided", "type mismatch"):
+        for key in ("written in multiple contexts", "assignment to port", "no definition provided", "type mismatch",
+                    "width mismatch", "is less than source width"):
             if key in msg:
                 cls = key.replace(" ", "_")
         if cls == "other":
